@@ -408,11 +408,35 @@ def ref_separator(data):
     return ("Ok", "ProgramDataSeparator", None, pos)
 
 
-def element_table(kinds):
+def generated_inputs():
+    """thorough tier: every text over a small alphabet of the bytes an element reader distinguishes, up to a length
+    bound, for each kind of element (so that every order of quote / separator / digit / sign / letter is met)"""
+    import itertools
+
+    def words(alpha, lo, hi):
+        for n in range(lo, hi + 1):
+            for w in itertools.product(alpha, repeat=n):
+                yield bytes(w)
+    gen = {"mnemonic": [], "chardata": [], "data": [], "separator": []}
+    gen["data"] += [b'"' + w for w in words(b"\"'a ,", 0, 4)]
+    gen["data"] += [b"'" + w for w in words(b"'\"a;", 0, 3)]
+    gen["data"] += [b"(" + w for w in words(b"()a\" ,", 0, 3)]
+    gen["data"] += [b"#" + w for w in words(b"012a,\n", 1, 4)]
+    gen["data"] += [b"#" + r + w for r in (b"H", b"q", b"B") for w in words(b"01aG ,", 0, 3)]
+    gen["data"] += [w for w in words(b"1.eE+- V,", 1, 4) if w[:1] in b"1.+-"]
+    gen["chardata"] += [b"A" + w for w in words(b"a1_ ,;x\n", 0, 3)]
+    # `*` not followed by a letter is not tabulated: the lexer hands it on as a mnemonic and the dispatcher refuses it
+    # with -113 (DESIGN.md, observation O2)
+    gen["mnemonic"] += [h + w for h in (b"A", b"*A") for w in words(b"a1_:? ;*", 0, 3)]
+    gen["separator"] += [b"," + w for w in words(b" ,;1.\"a#", 1, 3) if not w.rstrip(b" ").endswith(b"\n") and w.strip(b" ")]
+    return gen
+
+
+def element_table(kinds, thorough=False):
     """Tokenizer::next interpreted (all tokenizer functions in place, lexical-core's integer parsers by contract) on
     complete representative inputs; returns {kind: [mismatch descriptions]}, number of inputs evaluated, span"""
     from . import convert as CV
-    key = ("elements",)
+    key = ("elements", bool(thorough))
     if key not in _C:
         P = D.prog()
         u = P.unit("scpi")
@@ -454,8 +478,13 @@ def element_table(kinds):
         nb = tokenizer_next_body(u)
         tk_fields = tokenizer_fields(u)
         results = {}
+        gen = generated_inputs() if thorough else {}
         for kind, inputs, in_header in (("mnemonic", MNEMONIC_INPUTS, True), ("chardata", CHARDATA_INPUTS, False), ("data", ELEMENT_INPUTS, False), ("separator", SEPARATOR_INPUTS, False)):
-            for data in inputs:
+            seen_in = set()
+            for data in list(inputs) + list(gen.get(kind, ())):
+                if data in seen_in:
+                    continue
+                seen_in.add(data)
                 st = fdai.State()
                 st.extra["bytes"] = list(data)
                 vals = {"chars": M.mk_bytes_iter(0), "in_header": K(in_header), "in_common": K(False), "after_data": K(kind == "separator")}
@@ -492,8 +521,8 @@ def element_table(kinds):
     return {k: results.get(k, []) for k in kinds}, span
 
 
-def check_elements(R, rule, kinds):
-    table, span = element_table(kinds)
+def check_elements(R, rule, kinds, thorough=False):
+    table, span = element_table(kinds, thorough)
     n = 0
     for kind in kinds:
         rows = table.get(kind, [])
